@@ -12,6 +12,10 @@ following its control flow:
 The structural facts (tokens preserved, von longest, case rule) are proved once for
 `splitWith q`, arbitrary `q`.
 
+The character classes are the regenerated interpreter tables (`Gen/Unicode.lean`); the facts
+about them that the proofs and a reader of the rule need (upper/lower disjoint, structural
+characters in no class, ASCII coincidence) are kernel-evaluated checks over those tables.
+
 Everything lives in `Pybtex.Names` (so that generic helper names cannot clash with other lemma
 files) except the two lemmas other properties import: `Pybtex.parseName_error` and
 `Pybtex.mkPerson_error`.
@@ -183,19 +187,55 @@ theorem tables_sorted : sortedR Gen.alphaRanges = true ∧ sortedR Gen.upperRang
 
 theorem tables_upper_lower : disjR Gen.upperRanges Gen.lowerRanges = true := by decide +kernel
 
+/-- membership with early exit (sound for sorted ranges): what the kernel evaluates in the
+table facts below, so that code points in the low ranges cost a few steps only -/
+def inRangesS (n : Nat) : List (Nat × Nat) → Bool
+  | [] => false
+  | (a, b) :: r => if n < a then false else (n ≤ b || inRangesS n r)
+
+theorem inRangesS_eq {n : Nat} {rs : List (Nat × Nat)} (hs : sortedR rs = true) :
+    inRanges n rs = inRangesS n rs := by
+  induction rs with
+  | nil => rfl
+  | cons x r ih =>
+    obtain ⟨a, b⟩ := x
+    rw [inRanges, inRangesS, ih (sortedR_tail hs)]
+    by_cases hna : n < a
+    · rw [if_pos hna, ← ih (sortedR_tail hs)]
+      cases r with
+      | nil => simp [inRanges]; omega
+      | cons y r' =>
+        obtain ⟨c, d⟩ := y
+        cases hin : inRanges n ((c, d) :: r') with
+        | false => simp; omega
+        | true =>
+          have := sortedR_lb (sortedR_tail hs) hin
+          simp only [sortedR, Bool.and_eq_true, decide_eq_true_eq] at hs
+          omega
+    · rw [if_neg hna]
+      have : decide (a ≤ n) = true := by simp; omega
+      rw [this, Bool.true_and]
+
 /-- no character is both upper and lower case -/
 theorem upper_lower_disjoint {c : Char} (h : isUpperN c = true) : isLowerN c = false :=
   disjR_sound tables_upper_lower tables_sorted.2.1 tables_sorted.2.2 h
 
 /-- code points of the characters with a structural meaning in a name: Python white space (the
-29 code points of `isWs`), `{ } \ , ~ -` and the digits -/
-def structuralCodes : List Nat := wsCodes ++ [123, 125, 92, 44, 126, 45, 48, 49, 50, 51, 52, 53, 54, 55, 56, 57]
+29 code points of `isWs`) and `{ } \ , ~ -` -/
+def structuralCodes : List Nat := wsCodes ++ [123, 125, 92, 44, 126, 45]
+
+theorem tables_structuralS : ∀ n ∈ structuralCodes,
+    inRangesS n Gen.alphaRanges = false ∧ inRangesS n Gen.upperRanges = false ∧
+    inRangesS n Gen.lowerRanges = false := by decide +kernel
 
 theorem tables_structural : ∀ n ∈ structuralCodes,
     inRanges n Gen.alphaRanges = false ∧ inRanges n Gen.upperRanges = false ∧
-    inRanges n Gen.lowerRanges = false := by decide +kernel
+    inRanges n Gen.lowerRanges = false := by
+  intro n hn
+  rw [inRangesS_eq tables_sorted.1, inRangesS_eq tables_sorted.2.1, inRangesS_eq tables_sorted.2.2]
+  exact tables_structuralS n hn
 
-/-- braces, backslash, comma, tie, hyphen, digits and white space are neither letters nor cased -/
+/-- braces, backslash, comma, tie, hyphen and white space are neither letters nor cased -/
 theorem structural_no_class {c : Char} (h : c.toNat ∈ structuralCodes) :
     isAlphaN c = false ∧ isUpperN c = false ∧ isLowerN c = false :=
   tables_structural _ h
@@ -211,15 +251,31 @@ theorem ws_no_class {c : Char} (h : isWs c = true) :
   have : c.toNat ∈ wsCodes := by simpa [isWs] using h
   exact List.mem_append_left _ this
 
+theorem tables_asciiS : ∀ n < 128,
+    inRangesS n Gen.alphaRanges = ((65 ≤ n && n ≤ 90) || (97 ≤ n && n ≤ 122)) ∧
+    inRangesS n Gen.upperRanges = (65 ≤ n && n ≤ 90) ∧
+    inRangesS n Gen.lowerRanges = (97 ≤ n && n ≤ 122) := by decide +kernel
+
 theorem tables_ascii : ∀ n < 128,
     inRanges n Gen.alphaRanges = ((65 ≤ n && n ≤ 90) || (97 ≤ n && n ≤ 122)) ∧
     inRanges n Gen.upperRanges = (65 ≤ n && n ≤ 90) ∧
-    inRanges n Gen.lowerRanges = (97 ≤ n && n ≤ 122) := by decide +kernel
+    inRanges n Gen.lowerRanges = (97 ≤ n && n ≤ 122) := by
+  intro n hn
+  rw [inRangesS_eq tables_sorted.1, inRangesS_eq tables_sorted.2.1, inRangesS_eq tables_sorted.2.2]
+  exact tables_asciiS n hn
 
 /-- below U+0080 the classes are the ASCII ones of `Model/Basic.lean` -/
 theorem ascii_classes {c : Char} (h : c.toNat < 128) :
     isAlphaN c = isAlpha c ∧ isUpperN c = isUpperA c ∧ isLowerN c = isLowerA c :=
   tables_ascii _ h
+
+theorem digit_no_class {c : Char} (h : isDigit c = true) :
+    isAlphaN c = false ∧ isUpperN c = false ∧ isLowerN c = false := by
+  simp only [isDigit, Bool.and_eq_true, decide_eq_true_eq] at h
+  obtain ⟨ha, hu, hl⟩ := ascii_classes (c := c) (by omega)
+  rw [ha, hu, hl]
+  simp only [isAlpha, isUpperA, isLowerA]
+  refine ⟨?_, ?_, ?_⟩ <;> simp <;> omega
 
 /-! ### `is_von_name` against the case of a token -/
 
@@ -1004,6 +1060,26 @@ def tokDeepLower : Str := 'a' :: (List.replicate 101 '{' ++ List.replicate 101 '
 def nameDeepLower : Str := tokDeepLower ++ " B".toList
 /-- `{{…{}…}} B` with 101 nested braces: the first token has to be scanned and is too deep. -/
 def nameDeep : Str := List.replicate 101 '{' ++ List.replicate 101 '}' ++ " B".toList
+
+/-! names with non-ASCII characters -/
+
+/-- "毛 泽东": CJK letters have no case -/
+def nameMao : Str := "毛 泽东".toList
+/-- "דוד בן גוריון" (David Ben Gurion; written with escapes to keep the source left-to-right):
+Hebrew letters have no case -/
+def nameBenGurion : Str :=
+  "\u05d3\u05d5\u05d3 \u05d1\u05df \u05d2\u05d5\u05e8\u05d9\u05d5\u05df".toList
+/-- "Édouard van Beneden": a non-ASCII capital -/
+def nameBeneden : Str := "Édouard van Beneden".toList
+/-- "ʻAkahi Kealoha, Leilani": the ʻokina U+02BB is a letter without case, the scan goes on
+to the capital A -/
+def nameAkahi : Str := "ʻAkahi Kealoha, Leilani".toList
+/-- "Ⓐb ⓐb 1ⓐX Z": Ⓐ U+24B6 / ⓐ U+24D0 are cased but not letters — they decide the case as
+first character only -/
+def nameCircled : Str := "Ⓐb ⓐb 1ⓐX Z".toList
+/-- "Жан ван Ωmega ǅx Last": Cyrillic / Greek cased letters; the titlecase letter ǅ U+01C5 is a
+letter that is neither upper nor lower case -/
+def nameMixed : Str := "Жан ван ωmega ǅx Ωmega".toList
 
 end Names
 
